@@ -60,7 +60,7 @@ def setup():
     patch.set(MS, "allocate_multislice_measurements", stub_alloc)
 
 
-def make_potential(ncfg, nsl, exit_planes, thick=None, ensemble=True, offset=0):
+def make_potential(ncfg, nsl, exit_planes, thick=None, ensemble=True, offset=0, axis="phonons"):
     arr = np.zeros(((ncfg,) if ensemble else ()) + (nsl, 1, 1), dtype=np.float32)
     for k in range(ncfg if ensemble else 1):
         for i in range(nsl):
@@ -69,7 +69,16 @@ def make_potential(ncfg, nsl, exit_planes, thick=None, ensemble=True, offset=0):
             else:
                 arr[i] = 10 * offset + i
     return PotentialArray(arr, slice_thickness=thick if thick is not None else 1.0, sampling=1.0, exit_planes=exit_planes,
-                          ensemble_axes_metadata=[FrozenPhononsAxis()] if ensemble else [])
+                          ensemble_axes_metadata=[_axis(axis, ncfg)] if ensemble else [])
+
+
+def _axis(kind, n):
+    from abtem.core.axes import NonLinearAxis, OrdinalAxis
+    if kind == "phonons":
+        return FrozenPhononsAxis()
+    if kind == "nonlinear":
+        return NonLinearAxis(label="T", values=tuple(float(i) for i in range(n)))
+    return OrdinalAxis(label="cfg", values=tuple(range(n)))
 
 
 def make_waves():
